@@ -40,9 +40,13 @@ type MemCtx struct {
 	c     *Ctx
 	next  int
 	cache map[[2]int]*Term
+	// Opaque: objects returned as "fresh" by assumed contracts: new, but with unknown contents
+	Opaque map[int]bool
 }
 
-func NewMemCtx(c *Ctx) *MemCtx { return &MemCtx{c: c, cache: map[[2]int]*Term{}} }
+func NewMemCtx(c *Ctx) *MemCtx {
+	return &MemCtx{c: c, cache: map[[2]int]*Term{}, Opaque: map[int]bool{}}
+}
 
 func (mc *MemCtx) newMem(m *Mem) *Mem {
 	mc.next++
@@ -154,7 +158,7 @@ func (mc *MemCtx) Read(m *Mem, a *Term) *Term {
 	var r *Term
 	switch m.kind {
 	case mBase:
-		if rt, k := addrRoot(a); m.entry && k == 1 && rt.K > 0 {
+		if rt, k := addrRoot(a); m.entry && k == 1 && rt.K > 0 && !mc.Opaque[rt.K] {
 			// a cell of an object allocated during the call that was never written: zero
 			// (declared fields are zero-initialised explicitly; this covers ghost cells of new objects)
 			r = mc.zero(m.S)
